@@ -60,6 +60,9 @@ public:
   }
 
 private:
+  // LoggerProvider looks loggers up by the name they were created with
+  friend class LoggerProvider;
+
   // The name of this logger
   std::string logger_name_;
 
